@@ -282,9 +282,11 @@ def r_pair_eq(A, ctx, scope, rule="R-PAIR-EQ"):
                 ratios.append(("intercept", (R(w[-1]) - R(w0[-1])) / R(delta[-1])))
             ratios += [(f"Xw[{i}]", (R(Xw[i]) - R(Xw0[i])) / R(Xd[i])) for i in range(N)]
             ref = ratios[-1][1]
+            # the test that leaves the search (a `break` in either arm) was evaluated more than
+            # once iff the unit step was rejected at least once
             exits = {id(x) for x in ast.walk(fn.node) if isinstance(x, ast.If)
-                     and any(isinstance(b, ast.Break) for b in x.body)}
-            if not any(nid in exits and not taken for nid, taken in L.decisions):
+                     and any(isinstance(b, ast.Break) for b in x.body + x.orelse)}
+            if sum(1 for nid, taken in L.decisions if nid in exits) < 2:
                 return None                  # unit step accepted: backtracking not exercised here
             verdict(key, fn, [(f"step of {lab} vs step of the model fit", r, ref) for lab, r in ratios[:-1]], rg)
             # untouched coefficients stay untouched
